@@ -8,7 +8,8 @@ ASPECTS = {'C01': ('actions', 'state'), 'C02': ('offers', 'state', 'actions', 'i
 
 
 def scenarios(seed, tier, failed):
-    for sc in charts.standard_scenarios(seed, tier, with_queries=('C22' != 'C03')):
+    hosts = ('HsmEventProcessor', 'InstrumentedHsmEventProcessor', 'HsmWithQueues')
+    for sc in charts.standard_scenarios(seed, tier, hosts=hosts, spy_options=(False, True), with_queries=True):
         if 'C22' == 'C03':
             sc['events'] = []
         yield sc
